@@ -1452,8 +1452,11 @@ class C05(Prop):
             c = c + '\0' * (pos - len(c))
             f['c'] = c[:pos] + op['c'] + c[pos + len(op['c']):]
             h['pos'] = pos + len(op['c'])
-          elif cur:
-            pass
+          elif f is not None:
+            # a write through a handle that predates a later 'w' of the path: POSIX would still
+            # reach the file, this file system writes into the detached old buffer — the property
+            # does not say; the content is unspecified until the next overwrite
+            f['c'] = None
         elif cur and f['c'] is not None:
           c, pos = f['c'], h['pos']
           if k == 'hread':
